@@ -122,3 +122,46 @@ fn rt_indexed_access() {
     assert!(rt_single(&v, &t1, Some("Boolean")), "C17: tuple indexing by a literal picks that element");
     std::mem::forget(v);
 }
+
+// ---- single-call variants with global-backed type inputs (the function branches on the type's shape) ----
+fn kwb(k: TsKeywordTypeKind) -> Box<TsType> { bxt(kw(k)) }
+fn rt_one<const K: u8>() {
+    use TsKeywordTypeKind::*;
+    use_global_inputs();
+    let v = visitor(any_options());
+    let (ty, expect): (TsType, Option<&str>) = match K {
+        0 => (TsType::TsIndexedAccessType(TsIndexedAccessType { span: sp(1), readonly: false, obj_type: bxt(TsType::TsArrayType(TsArrayType { span: sp(1), elem_type: kwb(TsStringKeyword) })), index_type: bxt(lit_ty(TsLit::Number(Number { span: sp(1), value: 0.0, raw: None }))) }), Some("String")),
+        1 => (TsType::TsIndexedAccessType(TsIndexedAccessType { span: sp(1), readonly: false, obj_type: bxt(TsType::TsArrayType(TsArrayType { span: sp(1), elem_type: kwb(TsStringKeyword) })), index_type: kwb(TsNumberKeyword) }), Some("String")),
+        2 => (TsType::TsArrayType(TsArrayType { span: sp(1), elem_type: kwb(TsStringKeyword) }), Some("Array")),
+        3 => (TsType::TsParenthesizedType(TsParenthesizedType { span: sp(1), type_ann: kwb(TsNumberKeyword) }), Some("Number")),
+        4 => (TsType::TsFnOrConstructorType(TsFnOrConstructorType::TsFnType(TsFnType { span: sp(1), params: Vec::new(), type_params: None, type_ann: Box::new(TsTypeAnn { span: sp(1), type_ann: kwb(TsVoidKeyword) }) })), Some("Function")),
+        _ => (TsType::TsTupleType(TsTupleType { span: sp(1), elem_types: Vec::new() }), Some("Array")),
+    };
+    assert!(rt_single(&v, &ty, expect), "C17: arrays / tuples -> Array, functions -> Function, parentheses transparent, `T[][0]` and `T[][number]` -> the element type");
+    std::mem::forget(ty); std::mem::forget(v);
+}
+macro_rules! r1_h { ($($n:ident: $k:expr;)*) => { $(#[kani::proof] #[kani::unwind(5)] #[kani::stub(std::ptr::drop_in_place, no_drop)] #[kani::stub(core::ptr::drop_glue, no_glue)] #[kani::stub(std::vec::Vec::extend_from_slice, extend_from_slice_model)] #[kani::stub(alloc::alloc::dealloc, no_dealloc)] fn $n() { rt_one::<$k>() })* } }
+r1_h! { rt1_array: 2; rt1_paren: 3; rt1_fn: 4; rt1_tuple: 5; }
+macro_rules! r1i_h { ($($n:ident: $k:expr;)*) => { $(#[kani::proof] #[kani::unwind(3)] #[kani::stub(std::ptr::drop_in_place, no_drop)] #[kani::stub(core::ptr::drop_glue, no_glue)] #[kani::stub(std::vec::Vec::extend_from_slice, extend_from_slice_model)] #[kani::stub(alloc::alloc::dealloc, no_dealloc)] fn $n() { rt_one::<$k>() })* } }
+r1i_h! { rt1_array_index_literal: 0; rt1_array_index_number: 1; }
+
+fn rt_union<const K: u8>() {
+    use TsKeywordTypeKind::*;
+    use_global_inputs();
+    let v = visitor(any_options());
+    let ty = match K {
+        0 => TsType::TsUnionOrIntersectionType(TsUnionOrIntersectionType::TsUnionType(TsUnionType { span: sp(1), types: vec![kwb(TsBooleanKeyword), kwb(TsStringKeyword)] })),
+        1 => TsType::TsUnionOrIntersectionType(TsUnionOrIntersectionType::TsUnionType(TsUnionType { span: sp(1), types: vec![kwb(TsStringKeyword), kwb(TsBooleanKeyword)] })),
+        _ => tref("NonNullable", vec![bxt(TsType::TsUnionOrIntersectionType(TsUnionOrIntersectionType::TsUnionType(TsUnionType { span: sp(1), types: vec![kwb(TsStringKeyword), kwb(TsNullKeyword)] })))]),
+    };
+    let r = v.infer_runtime_type(&ty);
+    let at = |i: usize, s: &str| matches!(&r.0[i], Some(a) if &**a == s);
+    match K {
+        0 => assert!(r.0.len() == 2 && at(0, "Boolean") && at(1, "String"), "C17: a union is the union of its parts; Boolean and String stay in declaration order"),
+        1 => assert!(r.0.len() == 2 && at(0, "String") && at(1, "Boolean"), "C17: a union is the union of its parts; String and Boolean stay in declaration order"),
+        _ => assert!(r.0.len() == 1 && at(0, "String"), "C17: NonNullable removes null"),
+    }
+    std::mem::forget(r); std::mem::forget(ty); std::mem::forget(v);
+}
+macro_rules! ru_h { ($($n:ident: $k:expr;)*) => { $(#[kani::proof] #[kani::unwind(4)] #[kani::stub(std::ptr::drop_in_place, no_drop)] #[kani::stub(core::ptr::drop_glue, no_glue)] #[kani::stub(std::vec::Vec::extend_from_slice, extend_from_slice_model)] #[kani::stub(alloc::alloc::dealloc, no_dealloc)] fn $n() { rt_union::<$k>() })* } }
+ru_h! { rt1_union_boolean_string: 0; rt1_union_string_boolean: 1; rt1_nonnullable: 2; }
